@@ -9,7 +9,7 @@ pub const NS_C: &str = "http://example.com/c";
 pub const NS_HOSTILE: &str = "urn:x&y\"z<w";
 
 pub const LOCALS: &[&str] = &[
-    "a", "b", "c", "e", "x", "y", "él", "a-b", "a.b", "_u", "n0", "A", "ab1",
+    "a", "b", "c", "e", "x", "y", "él", "a-b", "a.b", "_u", "n0", "A", "ab1", "xmlns", "xmlnsx", "id", "space",
 ];
 pub const PREFIXES: &[&str] = &["p", "q", "r", "n0", "n1"];
 
@@ -91,7 +91,7 @@ impl Default for GenCfg {
 const HOSTILE_CHARS: &[&str] = &[
     "a", "b", " ", "\t", "\n", "\r", "<", "&", ">", "'", "\"", "]", "-", "?", "é", "€", "𝄞",
     "\u{85}", "\u{a0}", "\u{2003}", "\u{2028}", "\u{d7ff}", "\u{e000}", "\u{fffd}", "\u{feff}", "]]>", "]]]>",
-    "]]", "--", "?>", "&amp;", "&#13;", "&lt;", "<!--", "<![CDATA[", "=", "/", "x", "1", "  ",
+    "]]", "--", "?>", "&amp;", "&#13;", "&lt;", "<!--", "<![CDATA[", "=", "/", "x", "1", "  ", " encoding=\"ISO-8859-1\"", "charset=koi8-r ",
 ];
 
 pub fn hostile_string(rng: &mut Rng, min: usize, max: usize, allow_cr: bool) -> String {
